@@ -1054,7 +1054,7 @@ class Evaluator:
             # one object per constexpr variable and evaluator: positions taken from it on different occasions (cbegin() here,
             # an iterator found earlier there) refer to the same array
             cache = self.__dict__.setdefault("_constexpr_globals", {})
-            if v["id"] in cache:
+            if v["id"] in cache and cache[v["id"]].loc in self.store:     # (a forked path may not have the object yet)
                 return cache[v["id"]]
             fr = {"f": {"name": name, "ret": v["t"]}, "params": [], "locals": {}, "this": None}
             lv = self.new_loc(self.blank(t), "g")
